@@ -30,7 +30,7 @@ func c06Oracle(c ev.Case) Res {
 		if capped {
 			return fail("mode %s: tokenizer hit the step cap (no progress)", modeName(m))
 		}
-		lx := refsqli.NewLexer(in, m, kw, portD)
+		lx := refsqli.NewLexer(in, m, kwTab(), portD)
 		i := 0
 		interesting := false
 		for {
@@ -57,7 +57,7 @@ func c06Oracle(c ev.Case) Res {
 			return fail("mode %s: tokenizer statistics impl=%+v ref=%+v", modeName(m), st, rs)
 		}
 		ft, fp, bl, vd, fst := lib.VFingerprint(in, m)
-		r := refsqli.Fingerprint(in, m, kw, portD)
+		r := refsqli.Fingerprint(in, m, kwTab(), portD)
 		if fp != r.FP || bl != r.Blacklist || vd != r.Verdict {
 			return fail("mode %s: fingerprint/blacklist/verdict impl=%q/%v/%v ref=%q/%v/%v", modeName(m), fp, bl, vd, r.FP, r.Blacklist, r.Verdict)
 		}
@@ -87,7 +87,7 @@ func c06Oracle(c ev.Case) Res {
 		}
 	}
 	ok, fp := lib.IsSQLi(in)
-	rok, rfp := refsqli.IsSQLi(in, kw, portD)
+	rok, rfp := refsqli.IsSQLi(in, kwTab(), portD)
 	if ok != rok || fp != rfp {
 		return fail("IsSQLi impl=%v/%q ref=%v/%q", ok, fp, rok, rfp)
 	}
@@ -103,7 +103,7 @@ func c06Oracle(c ev.Case) Res {
 func ruleCoverage(l *ev.Local, in string) {
 	var any [refsqli.NRules]bool
 	for _, m := range allModes {
-		r := refsqli.Fingerprint(in, m, kw, portD)
+		r := refsqli.Fingerprint(in, m, kwTab(), portD)
 		for k, h := range r.Hits {
 			if h > 0 {
 				any[k] = true
@@ -140,7 +140,7 @@ func sqlTruncationInputs() []string {
 			}
 		}
 	}
-	for _, s := range corpus.SQL {
+	for _, s := range corp().SQL {
 		for k := 0; k <= len(s) && k < 200; k++ {
 			add(s[:k])
 		}
@@ -205,7 +205,7 @@ func TestC06(t *testing.T) {
 	// (3) corpus mutation
 	p = c.rec.NewPart("rapid_corpus_mutation", "rapid: a repository fixture with 1-4 edits (insert fragment/byte, delete, duplicate, splice, case flip, truncate, tail repeat)", true, false, "")
 	c.Rapid(p, 4, pick(15000, 500000), func(rt *rapid.T, sh int) ev.Case {
-		s := gen.Mutate(rt, rapid.SampledFrom(corpus.SQL).Draw(rt, "base"), gen.FragSQL)
+		s := gen.Mutate(rt, rapid.SampledFrom(corp().SQL).Draw(rt, "base"), gen.FragSQL)
 		if gen.HasUnicodeFold(s) {
 			s = ""
 		}
